@@ -330,8 +330,40 @@ def sample(ctx, budget=1.0, hint=None, broken=None):
                                 fail('Document.add_path/not in the group the name lookup finds',
                                      'a path added with add_path(group=names) is not inside get_group(names) / not returned by paths_from_group(names)',
                                      dict(inp, group=list(names), history=[repr(x[1]) for x in added]), repr(q_ids), 'contains %r' % at_new['id'])
+                    # paths taken out of ANOTHER document (they carry the element they came from, which may have a transform of its own)
+                    # and added here: what arrives is the path as it was handed over, i.e. the flattened geometry
+                    borrowed = []
+                    if r.random() < 0.5:
+                        donors = []
+                        for _ in range(r.randint(1, 2)):
+                            dp_ = _rand_path(spt, r)
+                            for _try in range(8):
+                                if not any(isinstance(sg_, spt.Arc) for sg_ in dp_):
+                                    break
+                                dp_ = _rand_path(spt, r)
+                            else:
+                                continue
+                            donors.append(dp_)
+                        if donors:
+                            fn3 = fn + '.donor.svg'
+                            d_attrs = [dict({'id': 'donor%d' % i_, 'fill': 'none'}, **({'transform': r.choice(['translate(3,4)', 'translate(-2.5 8)', 'scale(2)', 'matrix(1 0 0 1 5 -6)'])}
+                                                                                  if r.random() < 0.6 else {})) for i_ in range(len(donors))]
+                            spt.wsvg(donors, attributes=d_attrs, filename=fn3)
+                            for q_ in spt.Document(fn3).paths():
+                                with_attr = r.random() < 0.4
+                                if with_attr:
+                                    doc.add_path(q_, {'id': 'borrowed-' + q_.element.get('id')})
+                                else:
+                                    doc.add_path(q_)
+                                borrowed.append(spt.parse_path(q_.d()))
+                            nontriv.add(('borrowed', len(donors), any('transform' in a_ for a_ in d_attrs)))
                     seen = doc.paths()
-                    want_all = expect + [spt.parse_path(p.d()) for p, _ in added]
+                    want_all = expect + [spt.parse_path(p.d()) for p, _ in added] + borrowed
+                    for b_ in borrowed:
+                        if sum(1 for q in seen if q == b_) < 1:
+                            fail('Document.paths/borrowed path changed', 'a path taken from another Document\'s paths() and added with add_path is not returned unchanged by this Document\'s paths()',
+                                 dict(inp, borrowed=repr(b_)), repr([q for q in seen if q not in expect][:3])[:400], repr(b_)[:300])
+                            break
                     for p, a in added:
                         hit = [q for q in seen if q.element.get('id') == a['id']]
                         if len(hit) != 1 or hit[0] != spt.parse_path(p.d()):
@@ -358,7 +390,7 @@ def sample(ctx, budget=1.0, hint=None, broken=None):
     return {'evaluations': n_eval, 'distinct_nontrivial': len(nontriv), 'failures': fails, 'samples': samples,
             'rule': 'random lists of 1-4 paths (Line/Quadratic/Cubic/Arc mixes, several subpaths, coordinates with 0-3 decimals), optional per-path attribute dicts (values incl. spaces, quotes, '
                     '&<>, non-ASCII) and svg attributes, file names with spaces / other extensions; wsvg then svg2paths2, Document.paths, SaxDocument: same paths in order (== parse_path(p.d())), '
-                    'close to the originals, supplied attributes returned; then Document: add_path (root / nested / new groups) -> paths() sees the added paths -> save (plain/pretty) -> the three '
+                    'close to the originals, supplied attributes returned; then Document: add_path (root / nested / new groups; also paths borrowed from another Document whose elements carry their own transform, with and without attribs) -> paths() sees the added paths -> save (plain/pretty) -> the three '
                     'readers return the same multiset. distinct = distinct (n, attributes?, svg attributes?, segment kinds)'}
 
 
